@@ -77,7 +77,10 @@ Proof. exact L_partition. Qed.
 
 (* resumed connections (TLS <= 1.2) take the suite for the key block and the Finished values from the session
    being resumed, on both sides; the client really sends illegal_parameter and aborts when the ServerHello names
-   another suite; full handshakes use the negotiated suite (structure of tlsconnection.py, read from its ast) *)
+   another suite; full handshakes use the negotiated suite; a server with several key pairs filters the suites by the
+   certificate it is about to send; the client refuses (illegal_parameter) a certificate whose key type is not one
+   the suite accepts -- which types those are is part of classification_matches_name (chk_dispatch)
+   (structure of tlsconnection.py, read from its ast) *)
 Theorem resumption_uses_session_suite : chk_suite_sources = true.
 Proof. exact suite_sources_ok. Qed.
 
